@@ -11,6 +11,7 @@ import (
 	"fmt"
 	"go/types"
 	"math/big"
+	"os"
 	"strings"
 )
 
@@ -81,7 +82,8 @@ type MemEntry struct {
 	water *Term
 	ctr   *Term
 	// literal
-	lit string
+	lit    string
+	origin string
 }
 
 type kindInfo struct {
@@ -100,7 +102,9 @@ type Mem struct {
 	ex    *Exec
 }
 
-func newMem(ex *Exec) *Mem { return &Mem{kinds: map[string]*kindInfo{}, cache: map[string]*Term{}, ex: ex} }
+func newMem(ex *Exec) *Mem {
+	return &Mem{kinds: map[string]*kindInfo{}, cache: map[string]*Term{}, ex: ex}
+}
 
 func (m *Mem) clone(ex *Exec) *Mem {
 	n := newMem(ex)
@@ -131,12 +135,26 @@ func zeroOf(s Sort) *Term {
 
 // Read returns the content of cell (kind, ref, idx) considering the first upto
 // entries of the log (upto < 0: all).
+var readDepth int
+var readWarned int
+
 func (m *Mem) Read(k *kindInfo, ref, idx *Term, upto int) *Term {
 	readCount++
+	readDepth++
+	defer func() { readDepth-- }()
+	if traceCalls && readDepth > 5 && readWarned < 5 {
+		readWarned++
+		fmt.Fprintf(os.Stderr, "DEEP READ kind=%s depth=%d ref=%s idx=%s\n", k.name, readDepth, ref.StringLimit(300), idx.StringLimit(200))
+	}
 	if upto < 0 || upto > len(k.log) {
 		upto = len(k.log)
 	}
-	key := fmt.Sprintf("%s|%d|%d|%d", k.name, ref.id, idx.id, upto)
+	cur := m.ex.cur
+	curID := 0
+	if cur != nil {
+		curID = cur.id
+	}
+	key := fmt.Sprintf("%s|%d|%d|%d|%d", k.name, ref.id, idx.id, upto, curID)
 	if t, ok := m.cache[key]; ok {
 		return t
 	}
@@ -146,9 +164,14 @@ func (m *Mem) Read(k *kindInfo, ref, idx *Term, upto int) *Term {
 	}
 	var chain []pend
 	var tail *Term
+	refNonPos := ref.hi != nil && ref.hi.Sign() <= 0
 	for i := upto - 1; i >= 0 && tail == nil; i-- {
 		e := &k.log[i]
 		var cond, val *Term
+		if refNonPos && e.ref != nil && e.ref.lo != nil && e.ref.lo.Sign() >= 0 {
+			// the two references can only coincide as nil, and nil is never written
+			continue
+		}
 		switch e.typ {
 		case eStore:
 			re := Eq(ref, e.ref)
@@ -159,7 +182,7 @@ func (m *Mem) Read(k *kindInfo, ref, idx *Term, upto int) *Term {
 			if ie.IsFalse() {
 				continue
 			}
-			cond = And(e.guard, re, ie)
+			cond = And(m.guardUnder(cur, e.guard), re, ie)
 			if cond.IsFalse() {
 				continue
 			}
@@ -195,7 +218,7 @@ func (m *Mem) Read(k *kindInfo, ref, idx *Term, upto int) *Term {
 				continue
 			}
 			rel := Sub(idx, e.idx)
-			cond = And(e.guard, re, Le(Int(0), rel), Lt(rel, e.n))
+			cond = And(m.guardUnder(cur, e.guard), re, Le(Int(0), rel), Lt(rel, e.n))
 			if cond.IsFalse() {
 				continue
 			}
@@ -209,6 +232,9 @@ func (m *Mem) Read(k *kindInfo, ref, idx *Term, upto int) *Term {
 				continue
 			}
 			val = m.baseApp(k, e.base, ref, idx, e.ctr)
+		}
+		if traceCalls && readDepth > 5 && readWarned < 6 {
+			fmt.Fprintf(os.Stderr, "   entry %d typ=%d origin=%s eref=%s\n", i, e.typ, e.origin, e.ref.StringLimit(100))
 		}
 		if cond.IsTrue() {
 			tail = val
@@ -247,6 +273,9 @@ func (m *Mem) baseApp(k *kindInfo, f *FuncDecl, ref, idx *Term, refHi *Term) *Te
 func (m *Mem) push(k *kindInfo, e MemEntry) {
 	if e.guard.IsFalse() {
 		return
+	}
+	if traceCalls {
+		e.origin = strings.Join(m.ex.fnStack, ">")
 	}
 	k.log = append(k.log, e)
 }
@@ -608,4 +637,38 @@ func (ex *Exec) assumeSliceWF(s SliceV) {
 // wholeObj: p points at a whole allocated object (not into one).
 func (ex *Exec) wholeObj(p PtrV) bool {
 	return p.Idx == nil && (p.Base == "" || (p.T != nil && p.Base == ex.allocBase(p.T)))
+}
+
+// guardUnder simplifies an entry's guard knowing that the read happens under the
+// reach condition cur: a guard all of whose conjuncts are conjuncts of cur is true.
+func (m *Mem) guardUnder(cur, g *Term) *Term {
+	if cur == nil || g.IsTrue() {
+		return g
+	}
+	if g == cur {
+		return True()
+	}
+	if cur.op != "and" {
+		return g
+	}
+	in := func(x *Term) bool {
+		for _, a := range cur.args {
+			if a == x {
+				return true
+			}
+		}
+		return false
+	}
+	if g.op == "and" {
+		for _, a := range g.args {
+			if !in(a) {
+				return g
+			}
+		}
+		return True()
+	}
+	if in(g) {
+		return True()
+	}
+	return g
 }
